@@ -171,11 +171,14 @@ pub fn run_sx127x(idx: u64, _rng: &mut Prng, col: &mut Collector) {
     match cfg {
         0 => {
             let (mut rk, bus) = new_sx1276(false);
-            sweep_127("sx1276-hf", -157, 868_100_000, &mut rk, &bus, r0, col)
+            // (the port, and with it the offset, follows the channel: frequencies across each port's range)
+            let f = [868_100_000u32, 779_500_000, 862_000_000, 915_000_000, 1_020_000_000, 863_000_100][(r0 % 6) as usize];
+            sweep_127("sx1276-hf", -157, f, &mut rk, &bus, r0, col)
         }
         1 => {
             let (mut rk, bus) = new_sx1276(false);
-            sweep_127("sx1276-lf", -164, 433_175_000, &mut rk, &bus, r0, col)
+            let f = [433_175_000u32, 137_000_000, 470_300_000, 510_000_000, 524_900_000, 525_000_000, 524_000_100, 410_000_000][(r0 % 8) as usize];
+            sweep_127("sx1276-lf", -164, f, &mut rk, &bus, r0, col)
         }
         _ => {
             let (mut rk, bus) = new_sx1272(false);
